@@ -47,6 +47,9 @@ RULE = ('session: 300 (quick) / 3500 (thorough) histories of 5..60 (quick) / 5..
         'on-disk histories contain 1-2 killed runs (a forked child opens the file, makes 1-4 calls, dies with '
         'os._exit; with and without a clean close of the parent before); half of the multi histories put two '
         'live table objects on the SAME file (one model run / reference per file). '
+        'caller objects: in 60 % of the histories (and in all exhaustive / bigbatch ones) the URLProperties / '
+        'URLData / URLResult objects handed to add_many / check_in are RE-USED: the j-th entry of every batch '
+        'is the same object with its attributes reset and set anew, one URLResult for all check_ins. '
         'bigbatch: one add_many of 1, 499..503, 1000..1003, 1500+ (thorough up to 2506) entries, plain / with '
         'properties (3 strings per entry: 166..168, 333..336) / mixed / with internal duplicates, then count, get_one '
         'at chunk-boundary positions, check_out, a second overlapping batch, count, get_hostnames. '
@@ -179,7 +182,7 @@ def exc_name(e):
 class Real:
     """A real table of one variant; `apply(op)` returns (canonical output, python value)."""
 
-    def __init__(self, variant, wrapped, share=None):
+    def __init__(self, variant, wrapped, share=None, reuse=True):
         """share: another Real whose database file this one opens too (two live tables on one file)"""
         self.variant = variant
         self.wrapped = wrapped
@@ -192,6 +195,11 @@ class Real:
         self.path = os.path.join(self.dir, 'table?é.db') if self.dir else None
         self.table = None
         self.abandoned = []       # table objects left open without close() (a killed run's handles)
+        # reuse: the caller keeps its URLProperties / URLData / URLResult objects and changes their
+        # attributes between calls (the j-th entry of every batch is the same object), as crawler code
+        # that fills one properties object per batch does; the table must read the current values
+        self.reuse = reuse
+        self._props, self._datas, self._result = {}, {}, None
         self.open()
 
     def open(self):
@@ -273,10 +281,13 @@ class Real:
         k = op[0]
         if k == 'A':
             batch = []
-            for e in op[1]:
+            for j, e in enumerate(op[1]):
                 p = None
                 if e.get('props') is not None:
-                    p = URLProperties()
+                    p = (self._props.get(j) if self.reuse else None) or URLProperties()
+                    self._props[j] = p
+                    for a in URLProperties.database_attributes:
+                        setattr(p, a, None)
                     for a, v in e['props'].items():
                         if a == 'status' and v is not None:
                             v = Status(v)
@@ -285,7 +296,8 @@ class Real:
                         setattr(p, a, v)
                 d = None
                 if e.get('data') is not None:
-                    d = URLData()
+                    d = (self._datas.get(j) if self.reuse else None) or URLData()
+                    self._datas[j] = d
                     d.post_data = e['data'].get('post_data')
                 batch.append(AddURLInfo(e['url'], p, d))
             return ('urls', list(t.add_many(batch)))
@@ -296,7 +308,8 @@ class Real:
         if k == 'I':
             r = None
             if op[4] is not None:
-                r = URLResult()
+                r = (self._result if self.reuse else None) or URLResult()
+                self._result = r
                 r.status_code = op[4].get('status_code')
                 r.filename = op[4].get('filename')
             return ('none', t.check_in(op[1], Status(op[2]), increment_try_count=op[3], url_result=r))
@@ -856,7 +869,7 @@ def gen_session(rng, maxlen):
                 if len(error_kinds(so)) <= 1:
                     sub.append(so)
             ops.insert(rng.randrange(1, len(ops) + 1), ['K', sub, rng.random() < 0.5])
-    return {'variant': variant, 'wrapped': rng.random() < 0.5, 'ops': ops}
+    return {'variant': variant, 'wrapped': rng.random() < 0.5, 'reuse': rng.random() < 0.6, 'ops': ops}
 
 
 # ------------------------------------------------------------------ large batches (size boundaries)
@@ -983,7 +996,7 @@ def run_case(ctx, case, reply, stream='session'):
     flat = flatten(case['ops'])
     ops = [op for op, _ in flat]
     model = split_reply(reply, len(ops)) if reply is not None else None
-    real = Real(case['variant'], case['wrapped'])
+    real = Real(case['variant'], case['wrapped'], reuse=case.get('reuse', True))
     oracle = Oracle(ctx, case, real.persistent)
     visits = VisitOracle(oracle)
     changed = False
@@ -1034,6 +1047,7 @@ def run_case(ctx, case, reply, stream='session'):
     finally:
         real.dispose()
     tags.add('variant:%s%s' % (case['variant'], '+wrapper' if case['wrapped'] else ''))
+    tags.add('caller-objects:' + ('reused' if case.get('reuse', True) else 'fresh'))
     tags.add('stream:' + stream)
     ctx.case(('session', case['variant'], case['wrapped'], json.dumps(jsonable_ops(ops), sort_keys=True)),
              nontrivial=changed, tags=sorted(tags))
@@ -1045,8 +1059,8 @@ def gen_multi(rng, maxlen=30):
     wrapped), calls interleaved between them, one of them closed and reopened while the others stay
     open: every table must keep behaving as if it were alone."""
     n = rng.choice([2, 2, 3])
-    tables = [{'variant': rng.choice(['memory', 'disk', 'disk', 'generic']), 'wrapped': rng.random() < 0.4}
-              for _ in range(n)]
+    tables = [{'variant': rng.choice(['memory', 'disk', 'disk', 'generic']), 'wrapped': rng.random() < 0.4,
+               'reuse': rng.random() < 0.6} for _ in range(n)]
     if rng.random() < 0.5:
         # two live table objects on the SAME file: they are one table
         tables[0]['variant'] = rng.choice(['disk', 'disk', 'generic'])
@@ -1092,7 +1106,8 @@ def run_multi(ctx, case, replies, stream='multi'):
     try:
         for i, t in enumerate(case['tables']):
             try:
-                reals.append(Real(t['variant'], t['wrapped'], share=reals[grp[i]] if grp[i] != i else None))
+                reals.append(Real(t['variant'], t['wrapped'], share=reals[grp[i]] if grp[i] != i else None,
+                                  reuse=t.get('reuse', True)))
             except Infra:
                 raise
             except Exception as e:
